@@ -20,7 +20,12 @@ PROP = {
             "SetTunnelConnector(nil), payload on the adopted pair while the relay is handshaking (parked) and after resetToStandby (crosses both ways), payload on intruders and losers, "
             "a straggler greeting after the reset (second bridge in a later era), the client leaving after the reset; every client kind alone / before / after a genuine pair, every server kind, every end game as corpus; "
             "compared per client and per server connection: refused / closed unanswered / open / exactly which bytes arrived / closed by the relay, and which pair is in tunnelRelay; "
-            "rtunnel_e2e = real filter -> real relay -> real trz/tsz child with the tunnel through the relay, the RELAYED trigger held back while intruders talk to the relay's port. "
+            "rtunnel_hs = the relay's own ACT/CFG handshake with bytes arriving IN-BAND at every point of it (keys typed at the client's terminal, noise printed by the server; before the ACT, between ACT and CFG, "
+            "after the CFG, after the reset) for every shape of handshake (tunnel agreed with the ACT through the tunnel or typed in-band / a tunnel exists but the ACT says tunnel=false / no tunnel / confirm=false / a junk line), "
+            "ended by nothing, by #EXIT: through the tunnel or by #EXIT: in-band; every phase alone and all together for every shape as corpus; compared: both in-band streams (the relay's own lines as tokens), "
+            "what every tunnel connection received, who is adopted; "
+            "rtunnel_e2e = real filter -> real relay -> real trz/tsz child with the tunnel through the relay, the RELAYED trigger held back while intruders talk to the relay's port, keys typed in-band at the relay's client side "
+            "before the ACT, between ACT and CFG (the server's CFG is held back on the relay's tunnel connection meanwhile) and after the CFG, both tunnel hops logged. "
             "non-trivial = every scenario (at least one connection is handled); distinct = distinct input line",
     "trusted": ["modelled, not verified: the kernel's TCP (a Read returns what has arrived, at most the buffer size; a listener's backlog is FIFO; connecting to a closed listener is refused), "
                 "the Go runtime (goroutines run, time.After fires, atomic.Pointer is sequentially consistent), JSON/zlib/base64 of the ACT line",
@@ -35,7 +40,9 @@ PROP = {
                     "the peer that knows the transfer's id and port (both shown on the terminal) is by definition authenticated: what an ADOPTED connection sends is the transfer's input",
                     "relay model: one trigger (one listener, one quadruple of hellos) with resetToStandby and everything that keeps running after it; resetToStandby's four tunnel statements are one step "
                     "(it runs under the relayStatus compare-and-swap and never concurrently with the relay's own sends); a pump's Read and the channel send that follows are one step; relayStatus is outside the model "
-                    "(whether a pump parks a chunk in the handshake buffer or forwards it is an arbitrary choice of the schedule; what the relay itself sends into the adopted bridge is arbitrary: C13/C14's subject)",
+                    "as far as it decides where bytes go: the status word, tunnelConnected, the two handshake buffers, bufferLock, the handshake goroutine's program point and the two in-band pumps are in the model; how many bytes a readLine of the "
+                    "handshake goroutine consumes, whether the line decodes, the ACT's tunnel/confirm fields and the bytes of the lines the relay writes itself are arbitrary (carried by the label); a pump's Read, its status check and "
+                    "addHandshakeBuffer or the send that follows are one step, as are the two loads and the send of sendStringToClient/ToServer and of one round of flushHandshakeBuffer; a second trigger and the trigger detector on in-band output are outside",
                     "relay: the unsynchronised plain fields r.trigger and r.tunnelRelayPort (read by every handler, written by wrapOutput at the NEXT trigger) are outside the model: a handler still running when a second trigger arrives "
                     "would dial the new server port with the old id (rejected by that server, C17_unauth_closed_unanswered)",
                     "relay: a server connection that answers the hello for (id, server port) is by definition the transfer's server (it knows id and port), as a client that presents the hello for (id, relay port) is the transfer's client"],
@@ -49,7 +56,8 @@ TEXT = {
             "to the server only if its single first read was exactly the hello for (id, relay port) and the single answer of the connection the connector returned was exactly the hello for (id, server port); the client is answered only after the "
             "server answered; a client presenting anything else gets no byte, no server connection is even opened for it, and its handler's next statement closes it; tunnelRelay holds a pair exactly when it won the compare-and-swap since the last "
             "reset, at most one per era, and changes only by a reset; every chunk on a bridge was read from that pair's own other connection or sent by the relay itself, and only a pair that won ever has a chunk, a pump or the back-pointer; the pair "
-            "that loses the swap gets both connections closed; the rewrite of `:<id>:<server port>` to `:<id>:<relay port>` in the relayed trigger is what makes the genuine client's hello match (a hello computed from the server's port is rejected). "
+            "that loses the swap gets both connections closed; once tunnelConnected is set (the relay has read an ACT with tunnel=true) a chunk the relay reads in-band — in any phase of its handshake, while transferring, after the reset — is never parked, "
+            "never in a bridge, never written to a tunnel connection, but passed on in-band unchanged in that very step, and nothing read from a tunnel connection is written in-band while tunnelConnected is set; the rewrite of `:<id>:<server port>` to `:<id>:<relay port>` in the relayed trigger is what makes the genuine client's hello match (a hello computed from the server's port is rejected). "
             "Tied to the code by regenerated constants and statement skeleton, by trace replay of the extracted models against the real functions on real loopback sockets (the relay through trzsz.NewTrzszRelay, in child processes), "
             "and by end-to-end runs of the real binaries, with and without a relay, with scripted intruders.",
     "note": "Limits: a connection that presents the right hello after another one won the swap has been ANSWERED and is simply dropped (not adopted, feeds nothing; its descriptor is closed only when the Go garbage collector finalizes it); "
@@ -58,7 +66,8 @@ TEXT = {
             "so outside the property's letter). The unsynchronised `timeout` flag is outside the model. "
             "Relay: 'at most one bridge EVER' is false and refuted in the model (C17_relay_at_most_one_ever_refuted: a client that connected before the listener was closed and greets only after resetToStandby wins a second swap if the connector still "
             "reaches somebody who answers with the server's hello; reproduced on the real relay by the correspondence run); between the relay's Write of the server hello to the client and its compare-and-swap a second authenticated pair can win, "
-            "the loser is then closed; a reset between a handler's swap and its tr.relay.Store(r) leaves a non-adopted bridge with its back-pointer set (C17_relay_stale_backpointer_reachable; a window of a few instructions, not observed); a silent client "
+            "the loser is then closed; in-band bytes that reach the relay after the client's ACT line has been parked but before the handshake goroutine has stored tunnelConnected (a few instructions) are parked behind the ACT and flushed into the tunnel "
+            "(C17_relay_inband_before_agreement_may_cross: they arrived before the agreement; not observed on the real relay); a reset between a handler's swap and its tr.relay.Store(r) leaves a non-adopted bridge with its back-pointer set (C17_relay_stale_backpointer_reachable; a window of a few instructions, not observed); a silent client "
             "or a silent server connection keeps its handler and descriptors for ever (no deadline on the single Reads). Observed, outside the listed properties: the relay's tunnel pumps busy-loop for ever once their own connection has been closed by the "
             "relay itself (C17_relay_obs_pump_spins_for_ever; counted in the evidence as observation:busy-loop).",
     "technique": "Coq proof (invariants over an executable labelled transition system) + regenerated constants and statement skeleton + trace-replay correspondence on real sockets + end-to-end oracle on the real binaries",
